@@ -7,11 +7,11 @@ PID = "C19"
 MANIFEST_ENTRY = {
  "level_claimed": {
   "category": "proof",
-  "text": "Theorems in coq/Properties/C19.v about an executable Gallina model of create_index_stack / clone_index_stack / lookup_in_data_slice / optimize_data_block_and_retain / clone_data on the data block as a list of cells (coq/Model/Optimize.v), with the structural read-back of coq/Spec/HeapIso.v as the specification; the model is tied to data/src/basic/{optimize,clone,ordering}.rs on every run by running both on the same raw data blocks (random and small-exhaustive value graphs built through the public API, stacks, frames, symbol names, retention counts, extra roots, repeated compaction, optimize injected at every step boundary of generated programs) and comparing the resulting blocks cell for cell; an independent oracle compares the getter-level read-back before and after on the implementation.",
+  "text": "Theorems in coq/Properties/C19.v about an executable Gallina model (coq/Model/Optimize.v) of create_index_stack, clone_index_stack, lookup_in_data_slice(_optional), optimize_data_block_and_retain and clone_data on the data block as a list of cells, for every store and every cell kind: whenever clone_data returns Ok, the returned address reads (Spec/HeapIso.v: the tree of labels with all addresses erased, covering values, list item/association slots, text cells and the Register/Value/Frame cells of the stacks) exactly as the argument did, no cell below the old cursor changed and heads/symbol table/retention are untouched (C19_clone); whenever optimize returns Ok on a store whose retained prefix is closed, every extra root reads the same through the returned mapping, the register, value and frame heads read the same (hence the three stacks read back equal), every symbol-table entry keeps its symbol and its name reads the same, the retention count and the retained cells are unchanged and retained addresses are fixed points (C19_optimize); the worklist-closure lemma for create_index_stack (C19_worklist_closed); the executable reader is sound and complete for the relational spec. The model is tied to data/src/basic/{optimize,clone,ordering}.rs on every run: both are run on the same raw data blocks (value-graph scripts built through the public API: fixed, small-exhaustive, seeded random with sharing, keyed lists, text, symbol lists, stacks, frames, retention, extra roots, repeated optimize/clone, malformed raw blocks; and the blocks met while optimize is injected at every step boundary of generated programs) and results, resulting blocks and read-backs are compared; an independent oracle compares the getter-level read-back before and after on the implementation and the final result of every program with and without injected compaction.",
   "design_ref": "DESIGN.md section 8 C19"
  },
- "level_note": "See evidence/C19.json: which theorems are full, _partial, _bounded or _refuted. Trusted: Coq kernel, extraction (ExtrOcamlBasic only), the Rust harness (harness/src/bin/optimize.rs) and this file's oracle; symbol hashing is opaque (symbols are their u64 values).",
- "technique": "Coq proof over an executable model + differential correspondence with the Rust implementation + direct read-back oracle"
+ "level_note": "The theorems are conditional on the call returning Ok; that it does so on well-formed stores is not proved (C19_success_statement is kept as an unproved Definition) and is false in general: known finding C19-K1 (CloneLimitReached on shared sub-values; C19_K1_refuted), re-confirmed on every run. 'Execution continues as if nothing had happened' is checked by program injection only (no runtime model in this component). Reads is a relation; read_f is its executable form (sound, complete for some fuel); the fuel = address+1 reader of DESIGN.md (HeapIso.read_tree/read) is defined but its adequacy on children-below-parents heaps is not proved. Trusted: Coq kernel (no axioms: every Print Assumptions is 'Closed under the global context'), extraction (ExtrOcamlBasic only), ocaml/opt_driver.ml, harness/src/bin/optimize.rs (+ the cfg(garnish_core_verif) accessors of /repo commit 3d6658d), this file's oracle; symbols are their u64 values; growth settings that make no progress are outside the model (C15).",
+ "technique": "Coq proof (copying-collector invariant over an executable model) + differential correspondence with the Rust implementation + direct read-back oracle + program injection"
 }
 
 # --------------------------------------------------------------------------- record parsing
@@ -426,7 +426,7 @@ class GraphGen:
 
 def gen_graphs(tier, seed):
     rng = vplib.rng_for(seed, "C19/graphs")
-    n = 6000 if tier == "thorough" else 700
+    n = 6000 if tier == "thorough" else 2000
     cases = []
     plans = ["o", "o", "oo", "ooo", "c", "co", "oc", "coco", "occo", "ccoo"]
     for i in range(n):
@@ -508,6 +508,50 @@ FIXED_GRAPHS = [
 ]
 
 
+FIXED_MALFORMED = [
+    "M rawFR oraw0", "M rawCL5 i1 oraw0", "M rawLi2.0 rawIt0 oraw0", "M i1 rawIt0 oraw1", "M i1 oraw7",
+    "M rawPr5.6 oraw0", "M rawPr0.0 oraw0", "M i1 ret9 opt-", "M rawUL2.1 rawIt0 raw_ raw_ raw_ oraw0",
+    "M i1 rawCM0.0 +r0 oraw0", "M rawJP3 rawFI1 craw1", "M rawRe0.0 +r0 opt-", "M i1 rawCI0 oraw1",
+    "M rawSL3 s1 oraw0", "M rawBL1 craw0", "M i1 rawCM0.7 rawCM0.8 craw0 oraw0", "M rawVR0 craw0",
+]
+
+
+def gen_malformed(tier, seed):
+    """Blocks made of arbitrary raw cells with small addresses: only the model/implementation correspondence is
+    checked on them (error class, panic, resulting block), never the property."""
+    r = vplib.rng_for(seed, "C19/malformed")
+    n = 1500 if tier == "thorough" else 500
+    kinds2 = ["Pr", "Rg", "Sc", "Pa", "Cc", "Li", "UL", "Va", "Re", "Fr", "CM"]
+    kinds1 = ["It", "VR", "RR", "FI", "FG", "CI", "JP", "SL", "CL", "BL", "Ex"]
+    kinds0 = ["U", "T", "_", "FR", "Cu", "Ni5", "Ch61", "By7", "Sy9", "As9.0", "As9.2"]
+    out = list(FIXED_MALFORMED)
+    for _ in range(n):
+        m = r.randrange(1, 9)
+        toks = []
+        if r.random() < 0.15:
+            toks.append("@%d:F%d:-" % (r.choice([1, 2, 4]), r.choice([1, 3])))
+        for i in range(m):
+            x = r.random()
+            a, b = r.randrange(0, m + 1), r.randrange(0, m + 1)
+            if x < 0.45:
+                toks.append("raw%s%d.%d" % (r.choice(kinds2), a, b % 4 if r.random() < 0.5 else b))
+            elif x < 0.75:
+                toks.append("raw%s%d" % (r.choice(kinds1), a if r.random() < 0.7 else a % 3))
+            else:
+                toks.append("raw" + r.choice(kinds0))
+        if r.random() < 0.3:
+            toks.append("ret%d" % r.randrange(0, m + 2))
+        if r.random() < 0.3:
+            toks.append("+r%d" % r.randrange(0, m))
+        if r.random() < 0.2:
+            toks.append("+f%d" % r.randrange(0, 9))
+        if r.random() < 0.25:
+            toks.append("craw%d" % r.randrange(0, m + 1))
+        toks.append("oraw" + (".".join(str(r.randrange(0, m + 1)) for _ in range(r.randrange(0, 3))) or "-"))
+        out.append("M " + " ".join(toks))
+    return out
+
+
 # programs --------------------------------------------------------------------------------
 def gen_expr(r, depth):
     if depth <= 0 or r.random() < 0.25:
@@ -561,7 +605,7 @@ FIXED_PROGRAMS = [
 def gen_programs(tier, seed):
     r = vplib.rng_for(seed, "C19/programs")
     out = list(FIXED_PROGRAMS)
-    n = 1500 if tier == "thorough" else 110
+    n = 1500 if tier == "thorough" else 300
     for _ in range(n):
         out.append(gen_expr(r, r.choice([2, 3, 3, 4])))
     k = 40 if tier == "thorough" else 12
@@ -596,6 +640,14 @@ def evaluate(lines, v, stats, listed, samples):
             v.violation(component="optimize", input=case, impl=result, what="harness case did not complete: " + result)
             continue
         recs = result.split(" ## ")
+        if case.startswith("M"):
+            stats["malformed_cases"] = stats.get("malformed_cases", 0) + 1
+            for rs in recs[1:]:
+                if rs != "NOREC":
+                    rec = parse_record(rs)
+                    key = "malformed_res:" + rec["res"].split(":")[0] + (":" + rec["res"].split(":")[1] if rec["res"].startswith("Err") else "")
+                    stats[key] = stats.get(key, 0) + 1
+            continue
         if case.startswith("G"):
             status = recs[0]
             stats["graph_cases"] += 1
@@ -672,8 +724,12 @@ def correspond(lines, mlines, v, stats):
         if len(recs) != len(mrecs):
             v.tie_failure("correspondence: %s: %d records vs %d model records" % (case[:120], len(recs), len(mrecs)))
             continue
-        if mverdict == "FAIL":
+        if mverdict == "FAIL" and not case.startswith("M"):
+            # the model's own read-back changed on a well-formed case: the theorems' hypotheses are not met by
+            # what the generators build, or the model is wrong
             stats["model_spec_fail"] = stats.get("model_spec_fail", 0) + 1
+            if stats["model_spec_fail"] <= 3:
+                v.tie_failure("model read-back before/after differs (spec verdict FAIL): " + case[:300])
         for ri, (r, m) in enumerate(zip(recs, mrecs)):
             rec, mrec = parse_record(r), parse_record("M | " + m)
             stats["model_records"] = stats.get("model_records", 0) + 1
@@ -683,9 +739,9 @@ def correspond(lines, mlines, v, stats):
             elif rec["res"].startswith("Ok"):
                 if rec["post"] != mrec["post"]:
                     diffs.append("data block after the call differs: impl=%s model=%s" % (rec["post"][:700], mrec["post"][:700]))
-                if "~" not in rec["spost"] and "?" not in mrec["spost"] and rec["spost"] != mrec["spost"]:
+                if rec["spost"] != "-" and "~" not in rec["spost"] and "?" not in mrec["spost"] and rec["spost"] != mrec["spost"]:
                     diffs.append("read-back after: getters=%s spec reader=%s" % (rec["spost"][:500], mrec["spost"][:500]))
-            if "~" not in rec["spre"] and "?" not in mrec["spre"] and rec["spre"] != mrec["spre"]:
+            if rec["spre"] != "-" and "~" not in rec["spre"] and "?" not in mrec["spre"] and rec["spre"] != mrec["spre"]:
                 diffs.append("read-back before: getters=%s spec reader=%s" % (rec["spre"][:500], mrec["spre"][:500]))
             if "~" in rec["spre"] or "?" in mrec["spre"]:
                 stats["readback_not_compared"] = stats.get("readback_not_compared", 0) + 1
@@ -733,7 +789,8 @@ def run(tier, seed):
     if not okm:
         v.tie_failure("model driver build failed: " + outm[-300:])
     exe = vplib.private_copy(vplib.harness_bin("optimize"))
-    cases = FIXED_GRAPHS + gen_small_exhaustive(tier) + gen_graphs(tier, seed) + gen_programs(tier, seed)
+    cases = (FIXED_GRAPHS + gen_small_exhaustive(tier) + gen_graphs(tier, seed) + gen_malformed(tier, seed)
+             + gen_programs(tier, seed))
     stats = new_stats()
     samples = []
     t0 = time.time()
@@ -756,6 +813,16 @@ def run(tier, seed):
         os.unlink(exe)
     except OSError:
         pass
+    v.coverage["theorem_status"] = {
+        "full (all stores, all cell kinds, conditional on Ok)": ["C19_clone", "C19_optimize", "C19_worklist_closed",
+                                                                 "C19_reader_sound", "C19_reader_complete"],
+        "refuted (witness by vm_compute, finding C19-K1)": ["C19_K1_refuted"],
+        "examples (non-vacuity)": ["C19_ex_optimize", "C19_ex_hyps", "C19_ex_retained", "C19_ex_clone"],
+        "stated, not proved": ["C19_success_statement (the calls succeed on well-formed stores outside C19-K1)",
+                               "commutation of the runtime's step relation with optimize (no runtime model; checked by "
+                               "program injection)",
+                               "adequacy of the fuel = address+1 reader HeapIso.read_tree on children-below-parents heaps"],
+    }
     v.coverage.update({
         "evaluations": stats["optimize_calls"] + stats["clone_calls"] + stats["program_injections"],
         "distinct_nontrivial": stats["optimize_moved_something"] + stats["clone_calls"],
